@@ -2553,10 +2553,96 @@ pub fn gen_c13_shapes(rng: &mut Rng, d: &mut Dist) -> Vec<String> {
     out
 }
 
+/// C13: what the client remembers (broker table, partition leaders, group coordinators) against the life cycle of its
+/// metadata: resets, reloads, partial loads, brokers leaving, coordinators moving - in every order, with every kind of call
+/// in between.  All replies are well-formed; none may do more than make a call fail.
+pub fn gen_c13_lifecycle(rng: &mut Rng, d: &mut Dist) -> Vec<String> {
+    bump(d, "metadata-lifecycle");
+    let mut cl = Cluster::random(rng, 3, true);
+    if cl.brokers.len() < 2 {
+        cl.brokers.push((2, "b2".into(), 9092));
+    }
+    let mut out = cl.setup_lines();
+    out.push(format!("COORD {}", rng.pick(&cl.brokers).0));
+    out.push(format!("OP client_new {}", cl.bootstrap()));
+    out.push(format!("OP c set storage {}", rng.pick(&["zk", "kafka"])));
+    out.push("OP c set retry_backoff_ms 0".into());
+    out.push(format!("OP c set retry_max {}", rng.below(3)));
+    out.push("OP c load_metadata_all".into());
+    let groups = ["grp", "grp2"];
+    let call = |rng: &mut Rng, cl: &Cluster| -> String {
+        let t = rng.pick(&cl.topics);
+        let p = rng.below(t.leaders.len() as u64);
+        let g = h(*rng.pick(&groups[..]));
+        match rng.below(7) {
+            0 => format!("OP c commit_offsets {} {} {} 5", g, h(&t.name), p),
+            1 | 2 => format!("OP c fetch_group_offsets {} {} {}", g, h(&t.name), p),
+            3 => format!("OP c fetch_group_topic_offset {} {}", g, h(&t.name)),
+            4 => format!("OP c produce 1 1 0 {} {} ~ aa", h(&t.name), p),
+            5 => format!("OP c fetch_messages {} {} 0 -1", h(&t.name), p),
+            _ => format!("OP c fetch_offsets -1 {}", h(&t.name)),
+        }
+    };
+    // warm what can be remembered
+    out.push(call(rng, &cl));
+    out.push(format!("OP c fetch_group_offsets {} {} 0", h("grp"), h(&cl.topics[0].name)));
+    for _ in 0..(2 + rng.below(5)) {
+        match rng.below(6) {
+            0 => {
+                bump(d, "lifecycle-reset");
+                out.push("OP c reset_metadata".into());
+            }
+            1 => {
+                bump(d, "lifecycle-load-all");
+                out.push("OP c load_metadata_all".into());
+            }
+            2 => {
+                bump(d, "lifecycle-load-one");
+                out.push(format!("OP c load_metadata {}", h(&rng.pick(&cl.topics).name)));
+            }
+            3 => {
+                if cl.brokers.len() > 1 {
+                    bump(d, "lifecycle-brokers-leave");
+                    let first = cl.brokers[0].0;
+                    for b in cl.brokers.iter().skip(1) {
+                        out.push(format!("DELBROKER {}", b.0));
+                    }
+                    cl.brokers.truncate(1);
+                    for tt in cl.topics.iter_mut() {
+                        for p in 0..tt.leaders.len() {
+                            if tt.leaders[p] >= 0 {
+                                tt.leaders[p] = first;
+                                out.push(format!("LEADER {} {} {}", h(&tt.name), p, first));
+                            }
+                        }
+                    }
+                    out.push(format!("COORD {}", first));
+                    // the usual reaction to lost brokers: load everything again
+                    if rng.chance(2, 3) {
+                        out.push("OP c load_metadata_all".into());
+                    }
+                }
+            }
+            4 => {
+                bump(d, "lifecycle-coordinator-moves");
+                out.push(format!("COORD {}", rng.pick(&cl.brokers).0));
+            }
+            _ => {}
+        }
+        for _ in 0..(1 + rng.below(2)) {
+            out.push(call(rng, &cl));
+        }
+    }
+    out
+}
+
 pub fn gen_c13(rng: &mut Rng, d: &mut Dist, idx: u64) -> Vec<String> {
     const GROUP: u64 = 48;
     if idx % 12 == 11 {
         return gen_c13_shapes(rng, d);
+    }
+    if idx % 12 == 5 {
+        return gen_c13_lifecycle(rng, d);
     }
     let group = idx / GROUP;
     let cached = C13_BASE.with(|c| c.borrow().as_ref().map(|(g, _, _)| *g) == Some(group));
